@@ -441,6 +441,27 @@ def run_case(ctx, case):
                                 lv = (T.val(k, T.T_PV_MAJOR), T.val(k, T.T_PV_MINOR))
                                 if lv not in SUPPORTED:
                                     ctx.violation('discover|unsupported-listed', 'DiscoverVersions confirms %s' % (lv,), None)
+                        # lists of anything a client may write in the two integer fields: numbers that read like a supported version
+                        # in another notation (1.20, 1.02, 10.0, 12.0), neighbours, large values
+                        for _ in range(6):
+                            asked = [(rng.choice((0, 1, 1, 1, 2, 2, 3, 10, 12, 20)), rng.choice((0, 1, 2, 3, 4, 5, 10, 20, 30, 40, 100, 2 ** 31 - 1)))
+                                     for _ in range(rng.randrange(1, 7))]
+                            try:
+                                r = srv.send([op_discover_versions(asked)], ident, v)
+                            except Exception:
+                                continue
+                            ctx.ev()
+                            ctx.count('discover_lists_tried')
+                            if r.error is None and r.ok():
+                                conf = [(T.val(k, T.T_PV_MAJOR), T.val(k, T.T_PV_MINOR)) for k in T.kids(r.payload(), T.T_PROTOCOL_VERSION)]
+                                for lv in conf:
+                                    if lv not in SUPPORTED:
+                                        ctx.violation('discover|unsupported-listed', 'DiscoverVersions asked about %s confirms %s, which no request '
+                                                      'is accepted under' % (asked, lv), None)
+                                for lv in asked:
+                                    if lv in SUPPORTED and lv not in conf:
+                                        ctx.violation('discover|supported-not-confirmed', 'DiscoverVersions asked about %s does not confirm %s '
+                                                      '(answer %s)' % (asked, lv, conf), None)
                     r = srv.send([op_query((E.QueryFunction.QUERY_OPERATIONS,))], ident, v)
                     ctx.ev()
                     if not r.ok():
